@@ -172,7 +172,12 @@ fn deep_layouts(after_rejections: usize, out: &mut WorkerOut) {
 fn layout_grid(after_rejections: usize, out: &mut WorkerOut) {
     let hist = if after_rejections > 0 { "after-rejected-inputs:" } else { "" };
     let grid = [0usize, 1, 8, 31, 32, 33, 64, 100];
-    let tails = ["x + 1", "f(x , [y])", "- x ++", "c ? x : y", "f (x)", "g ( ) + x", "x not in [y]"];
+    let tails = ["x + 1", "f(x , [y])", "- x ++", "c ? x : y", "f (x)", "g ( ) + x", "x not in [y]",
+        // names that are control characters, between long whitespace runs (bulk whitespace skipping
+        // that tests bytes with a range comparison takes them for blanks)
+        "x + \u{1} + y", "[x , \u{1f} , y]", "\u{b} ; \u{c} ; x",
+        // a name followed (after blanks) by a call whose name is a character Unicode calls whitespace
+        "x \u{3000}(y)", "x \u{a0}(y) + 1"];
     for k in grid {
         let prefix: String = (0..k).map(|i| format!("v{} ++ ; ", i)).collect();
         for tail in tails {
@@ -206,6 +211,42 @@ fn layout_grid(after_rejections: usize, out: &mut WorkerOut) {
                             );
                         }
                     }
+                }
+            }
+        }
+    }
+    // programs written WITHOUT any whitespace, whitespace then inserted at one token boundary at
+    // a time (boundaries from the reference lexer): names that are characters Unicode calls
+    // whitespace, calls directly after names, operators glued to operands
+    let ops = OpSet::builtin();
+    for tight in ["x\u{3000}(y)", "x\u{a0}(y)+1", "a\u{c}(b)", "f(x)g(y)", "a\u{2028}b(c)", "x-\u{a0}+y", "[a\u{3000}(1),b]"] {
+        let base = match engine::parse(tight) {
+            Res::Ok(a) => a,
+            _ => {
+                out.count("deep_base_rejected", 1);
+                continue;
+            }
+        };
+        let toks = match lex(tight, &ops) {
+            Ok(t) => t,
+            Err(_) => continue,
+        };
+        for b in 1..toks.len() {
+            for w in [" ", "\t", "\n", " \r\n ", "        ", "                 "] {
+                let at = toks[b].start;
+                let variant = format!("{}{}{}", &tight[..at], w, &tight[at..]);
+                out.evals += 1;
+                out.count("transitions", 1);
+                match engine::parse(&variant) {
+                    Res::Ok(a) if a == base => {
+                        out.outcomes.insert("same".into());
+                        out.count("validated", 1);
+                    }
+                    other => out.fail(
+                        format!("{}tight-program:whitespace-inserted:changes-parse", hist),
+                        format!("deep|{:?} with {:?} inserted before token {}", tight, w, b),
+                        format!("the compact program is accepted; this layout gives {:?}", other.class()),
+                    ),
                 }
             }
         }
